@@ -140,6 +140,24 @@ Example C04_topk_example :
   topk_step Z Z.ltb (fun _ => false) 0 [0; 1; 0; 1] 2 [(0, 5%Z); (1, 9%Z)] = [].
 Proof. repeat split; vm_compute; reflexivity. Qed.
 
+(* Aggregations inside operator trees (Trees.JAgg, any accumulator that takes its first value
+   through [init] and the others through [add]; sum, max, min, group are instances: TreeOps.zagg_laws):
+   the group's value does not depend on the order in which its members arrive; the end-to-end
+   statement - groups, labels and values of every aggregation node of a tree over sharded,
+   batched selectors equal the reference's at every step - is C01_join_trees. *)
+From Verif Require Trees TreeOps.
+Theorem C04_group_value_order_free : forall (init : Z -> Z) (add : Z -> Z -> Z),
+  (forall a b, add (init a) b = add (init b) a) -> (forall x a b, add (add x a) b = add (add x b) a) ->
+  forall l l', Permutation.Permutation l l' -> Trees.agg_fold init add l = Trees.agg_fold init add l'.
+Proof. exact Trees.agg_fold_perm. Qed.
+Print Assumptions C04_group_value_order_free.
+
+Theorem C04_accumulators_satisfy_laws : forall code, In code [0; 1; 2; 3]%N ->
+  (forall a b, TreeOps.zadd code (TreeOps.zinit code a) b = TreeOps.zadd code (TreeOps.zinit code b) a) /\
+  (forall x a b, TreeOps.zadd code (TreeOps.zadd code x a) b = TreeOps.zadd code (TreeOps.zadd code x b) a).
+Proof. exact TreeOps.zagg_laws. Qed.
+Print Assumptions C04_accumulators_satisfy_laws.
+
 (* avg and stddev/stdvar: the accumulators (generic in the number type, RangeArith.v;
    the float instance is compared with scalar_table.go on every run) compute,
    on the rationals where nothing is rounded, the mean and the population
